@@ -24,4 +24,14 @@ def showSt (s : St Lbl) : String :=
   -- stack slots at or above stackOffset are dead (never read before being rewritten) and are not printed
   s!"off={s.stackOffset} lv={s.stackLevels.take s.stackOffset} stack={(s.stack.take s.stackOffset).map lblStr} auth={s.auth.map lblStr} keep={s.keep.map lblStr} th={th} retain={s.retain.map lblStr}"
 
+/-- Lean source of a label / state (for emitting segment certificates; the emitted terms are re-checked by the kernel) -/
+def lblSrc : Lbl → String
+  | .zero => ".zero" | .bad => ".bad" | .nd h i => s!".nd {h} {i}"
+
+def stSrc (s : St Lbl) : String :=
+  let l (xs : List Lbl) := "[" ++ ", ".intercalate (xs.map lblSrc) ++ "]"
+  let th := s.treeHash.map fun t => s!"⟨{t.h}, {t.nextIdx}, {t.stackUsage}, {t.completed}, {lblSrc t.node}⟩"
+  "{ stack := " ++ l s.stack ++ s!", stackOffset := {s.stackOffset}, stackLevels := {s.stackLevels}, auth := " ++ l s.auth ++
+    ", keep := " ++ l s.keep ++ ", treeHash := [" ++ ", ".intercalate th ++ "], retain := " ++ l s.retain ++ " }"
+
 end Qrl.BdsLabel
